@@ -187,6 +187,10 @@ static void c19_run(const Case &c, Result &r) {
   }
   // readable: exit 0, solution file states the truth
   const Model &tm = malform ? readm : m;       // a damaged but still valid file denotes what the library read
+  // (a cut can land inside a number literal and leave data far outside C03's "moderate" range, e.g. 3e256 with
+  // its exponent cut off; the exact driver may then stop at its default objective bound of 1e150 and esolver
+  // exits non-zero, which says nothing about esolver)
+  if (malform && !model_is_moderate(tm)) { r.label("case:damaged-file-denotes-immoderate-data"); r.verdict = DISCARD; return; }
   RefResult ref;
   ref_solve(tm, ref);
   if (ref.truth == T_UNKNOWN) { r.verdict = INCONCLUSIVE; r.msg = "reference could not certify the truth"; return; }
